@@ -124,3 +124,14 @@ package chancloser
 //@   site call WhenSomeV nth 0: assert arg(0).Option.some.Val.bytes == msg.ClosingSigs.CloserNoClosee.Option.some.Val.bytes && ret(IsSome, 3)
 //@   site call WhenSomeV nth 1: assert arg(0).Option.some.Val.bytes == msg.ClosingSigs.NoCloserClosee.Option.some.Val.bytes && ret(IsSome, 4)
 //@   site call WhenSomeV nth 2: assert arg(0).Option.some.Val.bytes == msg.ClosingSigs.CloserAndClosee.Option.some.Val.bytes && ret(IsSome, 5)
+//@
+//@ // ---- legacy negotiation, opening move: by the time the peer's cached closing_signed is replayed (and by the time our first offer is
+//@ // ---- made) the closer IS in the fee negotiation state - ReceiveClosingSigned only re-caches a message in any earlier state, which
+//@ // ---- would leave a non-opener silent for good (round-5 seeded change C17-14)
+//@ func (c *ChanCloser) BeginNegotiation
+//@   props C17
+//@   requires c != nil
+//@   loop * havoc
+//@   site call ReceiveClosingSigned: assert c.state == closeFeeNegotiation
+//@   site call proposeCloseSigned: assert c.state == closeFeeNegotiation && arg(1) == c.idealFeeSat && ret(IsInitiator) && called(initFeeBaseline)
+//@   site call WhenSome: assert c.state == closeFeeNegotiation && !ret(IsInitiator) && called(initFeeBaseline)
